@@ -215,6 +215,11 @@ for _p, _rules in (("C01", ["CW-ALLOC-INIT", "CW-DEFER-WRAPPER"]), ("C02", ["EBR
                    # (an unprotected guard runs deferred closures at once) starts a nested cascade at depth 0
                    ("C07", ["CW-DEFERRED-ONLY"]), ("C15", ["EBR-TUNABLES"]), ("C04", ["EBR-TUNABLES"]), ("C20", ["EBR-TUNABLES"]),
                    ("C20", ["EBR-FLUSH-SCHEDULES"]),
+                   # "all n nodes are destructed" / "still reclaims every node": a node the cascade puts off (depth cap, stamp
+                   # too recent) is handed to a deferred try_destruct - not dropped on the floor, not merely freed
+                   ("C06", ["CW-DESTRUCT-ORDER"]), ("C07", ["CW-DESTRUCT-ORDER", "CW-ZERO-DEFERS"]),
+                   # "as judged by ptr_eq" (C08/C09): the handles' ptr_eq is Tagged::ptr_eq of their two words
+                   ("C08", ["BIT-DELEGATION"]), ("C09", ["BIT-DELEGATION"]),
                    ("C13", ["EBR-INIT"]), ("C14", ["EBR-INIT"]), ("C16", ["EBR-INIT"]), ("C18", ["EBR-INIT"]), ("C20", ["EBR-INIT"])):
     registry.PROPS[_p]["rules"] += [x for x in _rules if x not in registry.PROPS[_p]["rules"]]
 
